@@ -12,7 +12,7 @@ import Enc.Spec.Json.EmbedCycle
 Model: `Enc/Model/Json/CodecChoice.lean` (`codecF` = constructCodec as written, threading `seen`; `choose`;
 `constructCachedCodec`), its meaning as a tree `Enc/Model/Json/CodecChoiceExpand.lean` (`norm`, `expandD`).
 Specification: `Enc/Spec/Json/StdCodecChoice.lean` (`stdD` = encoding/json's newTypeEncoder / condAddrEncoder with
-run-time addressability). Correspondence: harness op `json.codecchoice` (harness/c01codec.go, ~3000 zoo values, three
+run-time addressability). Correspondence: harness op `json.codecchoice` (harness/c01codec.go, ~3150 zoo values, three
 cache histories each), driver `Enc/Driver/JsonCodec.lean`.
 
 Statements only; proofs in Enc/Lemmas/JsonCodecChoice{Seen,Term,Std,Evo,Emb,Shape,Full,Cache}.lean.
@@ -63,8 +63,10 @@ abbrev KeysOK := Lemmas.JsonCodecChoiceStd.KeysOK
 of the universe — scalar kinds, the special types, interfaces, slices, arrays, maps, pointers, STRUCT types with
 embedding (promoted fields in place, through embedded pointers too) and the `string` option, defined types of any kind
 with any method sets, recursion through struct types (`seen`, back references `structRef`) and through named
-slice/map/pointer/array types (`recur`) — in which no struct embeds a struct type that contains the embedding struct
-again (`embedsRecursive env t = false`, a decidable certificate check for `NoEmbedCycle env t`, Spec/Json/EmbedCycle.lean),
+slice/map/pointer/array types (`recur`) — in which no struct lies on a cycle made of EMBEDDED structs only
+(`embedCycle env t = false`, a decidable certificate check for `NoEmbeddedCycle env t`, Spec/Json/EmbedCycle.lean; since
+the repair of `jsonEmbeddedStructUnderConstruction` — `structType.root`, the second listing of an embedded struct type
+that is under construction through a regular field — a cycle through a regular field is not excluded any more),
 for both top-level addressabilities and every depth `d`: the encoder tree `constructCodec(t, {}, a)` builds, back
 references resolved in the final `seen`, IS the tree of encoding/json's rule (`newTypeEncoder` / `condAddr` /
 `typeFields` without the dominance rules): kind dispatch, marshaler detection on T and *T, addressability of slice
@@ -72,16 +74,17 @@ elements / array elements (inherited) / pointer targets / map values (never) / s
 embedded pointer always), byte slices, the five fast map paths, map keys (after fix 0a9d40c no hypothesis on the key
 types is left), the `string` option on scalars and pointers to scalars.
 
-The hypothesis is necessary: `embedded_under_construction_differs` below is a type with `embedsRecursive = true` on
-which the two trees differ (finding `jsonEmbeddedStructUnderConstruction`). It is sufficient but not tight: when the
-struct type under construction and the embedded occurrence differ in addressability the trees can still agree. -/
-theorem choose_eq_std (env : Env) (t : TD) (a : Bool) (h : embedsRecursive env t = false) (d : Nat) :
+The hypothesis is necessary: `embedded_cycle_differs` below is a type with `embedCycle = true` on which the two trees
+differ (what is left of the finding `jsonEmbeddedStructUnderConstruction`: the struct types built inside a cycle of
+embedded structs, with the cut where the cycle closes, are kept as THE struct types of their keys). It is sufficient
+but not tight: `type T struct { *T; X int }` built for an addressable value agrees. -/
+theorem choose_eq_std (env : Env) (t : TD) (a : Bool) (h : embedCycle env t = false) (d : Nat) :
     expandD d env (choose env t a).2 (choose env t a).1 = stdD d env t a :=
-  Lemmas.JsonCodecChoiceFull.choose_eq_std env t a (embedsRecursive_sound env t h) d
+  Lemmas.JsonCodecChoiceFull.choose_eq_std env t a (embedCycle_sound env t h) d
 
-/-- the same with the graph-theoretic hypothesis itself: no struct type inside `t` embeds a struct type inside which
-the embedding struct occurs again -/
-theorem choose_eq_std_noEmbedCycle (env : Env) (t : TD) (a : Bool) (h : NoEmbedCycle env t) (d : Nat) :
+/-- the same with the graph-theoretic hypothesis itself: no struct type inside `t` embeds a struct type that embeds …
+embeds it again -/
+theorem choose_eq_std_noEmbedCycle (env : Env) (t : TD) (a : Bool) (h : NoEmbeddedCycle env t) (d : Nat) :
     expandD d env (choose env t a).2 (choose env t a).1 = stdD d env t a :=
   Lemmas.JsonCodecChoiceFull.choose_eq_std env t a h d
 
@@ -98,18 +101,12 @@ example :
        (4, ⟨⟨.none, .ptr, .none, .none⟩, .prim .int⟩),
        (5, ⟨noMeths, .struct (.cons "Z" false true (.prim .int) .nil)⟩),
        (6, ⟨noMeths, .slice (.ref 6)⟩)]
-    embedsRecursive env (.ref 1) = false ∧
+    embedCycle env (.ref 1) = false ∧
     stdD 3 env (.ref 1) true =
       .struct (.cons "Z" (.prim .int) (.embedPtr (.quoted (.prim .int))) (.cons "Y" (.ref 2) .mjAddr
         (.cons "V" (.ref 2) .mjAddr (.cons "Next" (.ptr (.ref 1)) (.ptr (stdD 1 env (.ref 1) true))
         (.cons "L" (.slice (.ref 1)) (.slice (stdD 1 env (.ref 1) true))
         (.cons "Q" (.ptr (.ref 4)) .mtDirect (.cons "R" (.ref 6) (.slice (.slice .cut)) .nil))))))) := by
-  decide +kernel
-
-/-- … and the type of the finding does not satisfy it -/
-example :
-    embedsRecursive [(1, ⟨noMeths, .struct (.cons "X" false false (.prim .int)
-        (.cons "F" false false (.slice (.struct (.cons "T" true false (.ref 1) .nil))) .nil))⟩)] (.ptr (.ref 1)) = true := by
   decide +kernel
 
 /-- **choose_eq_std_partial** (kept from the first round; now a special case of `choose_eq_std`). For every type built
@@ -132,31 +129,50 @@ example :
       stdD 6 env (.map (.ref 2) (.array 2 (.ref 1))) false = .map (.prim .string) (.array 2 .mtDirect) := by
   decide +kernel
 
-/-- **Finding (C01).** `type T struct { X int; F []struct{ T } }`, marshalled through a pointer (or as a slice
-element): while the struct type of (T, addressable) is under construction, the anonymous struct that embeds T takes
-`constructStructType(T, …).fields`, still empty — segmentio writes `{"X":1,"F":[{}]}`, encoding/json
-`{"X":1,"F":[{"X":2,"F":null}]}`. Model and code agree (harness cases with the known class
-`jsonEmbeddedStructUnderConstruction`); model and specification differ: -/
-theorem embedded_under_construction_differs :
+/-- **Repaired finding** (was `embedded_under_construction_differs`, class `jsonEmbeddedStructUnderConstruction`).
+`type T struct { X int; F []struct{ T } }`, marshalled through a pointer (or as a slice element): while the struct type
+of (T, addressable) is under construction, the anonymous struct that embeds T used to take
+`constructStructType(T, …).fields`, still empty, and segmentio wrote `{"X":1,"F":[{}]}`. Now the fields of T are listed
+a second time on behalf of the embedding struct: the type satisfies the hypothesis of `choose_eq_std` and the trees are
+equal — at depth 4 explicitly: -/
+theorem embedded_under_construction_agrees :
     let env : Env := [(1, ⟨noMeths, .struct (.cons "X" false false (.prim .int)
         (.cons "F" false false (.slice (.struct (.cons "T" true false (.ref 1) .nil))) .nil))⟩)]
+    embedCycle env (.ptr (.ref 1)) = false ∧
     expandD 4 env (choose env (.ptr (.ref 1)) true).2 (choose env (.ptr (.ref 1)) true).1
-        = .ptr (.struct (.cons "X" (.prim .int) (.prim .int)
-            (.cons "F" (.slice (.struct (.cons "T" true false (.ref 1) .nil))) (.slice (.struct .nil)) .nil))) ∧
-    stdD 4 env (.ptr (.ref 1)) true
         = .ptr (.struct (.cons "X" (.prim .int) (.prim .int)
             (.cons "F" (.slice (.struct (.cons "T" true false (.ref 1) .nil)))
               (.slice (.struct (.cons "X" (.prim .int) .cut
-                (.cons "F" (.slice (.struct (.cons "T" true false (.ref 1) .nil))) .cut .nil)))) .nil))) := by
+                (.cons "F" (.slice (.struct (.cons "T" true false (.ref 1) .nil))) .cut .nil)))) .nil))) ∧
+    stdD 4 env (.ptr (.ref 1)) true
+        = expandD 4 env (choose env (.ptr (.ref 1)) true).2 (choose env (.ptr (.ref 1)) true).1 := by
   decide +kernel
 
-/-- the hypothesis of `choose_eq_std` cannot be dropped: a type with `embedsRecursive = true` on which the trees differ -/
+/-- **Finding (C01), what is left of it.** A cycle of EMBEDDED structs: `type X struct { *Y; *Z }`,
+`type Y struct { *X; B int }`, `type Z struct { C int }`, X marshalled as a value that is not addressable: the struct
+type of (X, addressable), built while the fields of Y are listed on behalf of (X, not addressable), promotes Y's fields
+cut where the cycle closes and is kept; segmentio's X has the fields C (behind three embedded pointers), B, C —
+encoding/json's B, C. Model and code agree; model and specification differ: -/
+theorem embedded_cycle_differs :
+    let env : Env := [(1, ⟨noMeths, .struct (.cons "Y" true false (.ptr (.ref 2)) (.cons "Z" true false (.ptr (.ref 3)) .nil))⟩),
+                      (2, ⟨noMeths, .struct (.cons "X" true false (.ptr (.ref 1)) (.cons "B" false false (.prim .int) .nil))⟩),
+                      (3, ⟨noMeths, .struct (.cons "C" false false (.prim .int) .nil)⟩)]
+    embedCycle env (.ref 1) = true ∧
+    expandD 2 env (choose env (.ref 1) false).2 (choose env (.ref 1) false).1
+        = .struct (.cons "C" (.prim .int) (.embedPtr (.embedPtr (.embedPtr (.prim .int))))
+            (.cons "B" (.prim .int) (.embedPtr (.prim .int)) (.cons "C" (.prim .int) (.embedPtr (.prim .int)) .nil))) ∧
+    stdD 2 env (.ref 1) false
+        = .struct (.cons "B" (.prim .int) (.embedPtr (.prim .int)) (.cons "C" (.prim .int) (.embedPtr (.prim .int)) .nil)) := by
+  decide +kernel
+
+/-- the hypothesis of `choose_eq_std` cannot be dropped: a type with `embedCycle = true` on which the trees differ -/
 theorem choose_eq_std_needs_hypothesis :
-    ∃ (env : Env) (t : TD) (a : Bool) (d : Nat), embedsRecursive env t = true ∧
+    ∃ (env : Env) (t : TD) (a : Bool) (d : Nat), embedCycle env t = true ∧
       expandD d env (choose env t a).2 (choose env t a).1 ≠ stdD d env t a :=
-  ⟨[(1, ⟨noMeths, .struct (.cons "X" false false (.prim .int)
-        (.cons "F" false false (.slice (.struct (.cons "T" true false (.ref 1) .nil))) .nil))⟩)],
-    .ptr (.ref 1), true, 4, by decide +kernel, by decide +kernel⟩
+  ⟨[(1, ⟨noMeths, .struct (.cons "Y" true false (.ptr (.ref 2)) (.cons "Z" true false (.ptr (.ref 3)) .nil))⟩),
+    (2, ⟨noMeths, .struct (.cons "X" true false (.ptr (.ref 1)) (.cons "B" false false (.prim .int) .nil))⟩),
+    (3, ⟨noMeths, .struct (.cons "C" false false (.prim .int) .nil)⟩)],
+    .ref 1, false, 2, by decide +kernel, by decide +kernel⟩
 
 /-- **Repaired finding** (was `unmarshalOnly_key_differs`; fix 0a9d40c). `map[K]V` where K (struct kind) only has
 `(*K).UnmarshalText`: constructMapCodec used to keep the map codec and install the unsupported-type encoder for the KEY
@@ -224,5 +240,6 @@ end Enc.Props.C01Codec
 #print axioms Enc.Props.C01Codec.marshaler_order_eq_std
 #print axioms Enc.Props.C01Codec.cache_history_independent
 #print axioms Enc.Props.C01Codec.calls_history_independent
-#print axioms Enc.Props.C01Codec.embedded_under_construction_differs
+#print axioms Enc.Props.C01Codec.embedded_under_construction_agrees
+#print axioms Enc.Props.C01Codec.embedded_cycle_differs
 #print axioms Enc.Props.C01Codec.reuse_of_cached_element_codec_depends_on_history
